@@ -34,6 +34,9 @@ CLAIMED = {
  'C18': (TV, 'relational translation validation: Ocp.load(save(ocp)) vs the original, both transcribed by the real code, rows/objective proven equal by z3; settings and accessors compared (ground)',
          'For every enumerated feature-rich OCP x method x save moment: complete row multiset and objective of the loaded OCP equal those of the original for all decision vectors; starting point, parameter values, method class/settings, solver name/options, accessor lists (order, shapes) equal; quantities sampled through the loaded OCP\'s own accessors are the same; the original is undamaged by save (transcribes to the same NLP).',
          'Variable correspondence by creation order; single-stage OCPs (multi-stage in C12).', '3/C18'),
+ 'C12': (TV, 'multi-stage NLP rows vs union of per-stage reference rows + reference coupling rows (z3); clone-based vs directly declared OCP compared relationally',
+         'For every enumerated stage list (mixed methods/grids/horizons, per-stage parameters/variables, time inside dynamics and integrands), coupling pattern and parent variable/objective: complete row multiset of the multi-stage NLP in bijection with the union of each stage\'s reference rows (from that stage\'s own named quantities) and the reference coupling rows; objective = sum; named variables of different stages disjoint; OCP built from template clones (with overridden t0/T) equals the directly declared OCP (two real transcriptions, all x) incl. starting point; template content unchanged.',
+         'As C01/C04. Stage nesting depth 1.', '3/C12'),
 }
 NA = {p: 'check not built yet in this round (see DESIGN.md section 3 for the plan)' for p in
       ['C02','C03','C04','C05','C06','C07','C08','C09','C10','C11','C12','C13','C14','C15','C16','C17','C18','C19']}
